@@ -152,6 +152,12 @@ def lean_build(prop, thorough=False):
     t0 = time.time()
     generated = translate(prop)
     out["generated"] = generated
+    try:
+        from harness import translate as _tr
+
+        out["template_extractor"] = _tr.STATUS.get(prop)
+    except Exception:  # pragma: no cover
+        pass
     tie = translator_tie(prop)
     excluded = set()
     if tie:
@@ -362,6 +368,7 @@ def write_evidence(ctx, mod, proof, res, violations, extra=None):
         "open_statements": list(getattr(mod, "OPEN", [])),
         "generated_from_source": proof.get("generated", []),
         "translator_tie": proof.get("translator_tie"),
+        "template_extractor": proof.get("template_extractor"),
         "leanchecker": proof.get("leanchecker"),
         "evaluations": res.evaluations,
         "distinct_nontrivial": len(res.nontrivial),
